@@ -87,8 +87,16 @@ func judgeExpr(c *core.Ctx, e model.Expr, data map[string]model.Value, kind stri
 // judgeProgram renders a statement list in every layout and compares each with the model
 func judgeProgram(c *core.Ctx, stmts []model.Stmt, data map[string]model.Value, kind string, withEvents bool) {
 	exp := expectRun(stmts, data)
-	if exp.Unspecified {
+	switch {
+	case exp.Unspecified:
 		c.Count("cases_unspecified_by_the_statement", 1)
+	case exp.Fails:
+		c.Count("cases_model_expects_error", 1)
+	default:
+		c.Count("cases_model_expects_output", 1)
+		if withEvents {
+			c.Count("tracer_events_expected", len(exp.Events))
+		}
 	}
 	native := model.NativeData(data)
 	for _, lay := range exprLayouts {
